@@ -33,7 +33,7 @@ func init() {
 	})
 	register(&Prop{
 		ID:    "C06",
-		Rules: []func(*core.Ctx){RSurface, RByteUnit, RUnsetPair, RNZero, RPrevInit, RDialectSib, RUnitCmp, RLazyTable, rDirFoldOnly},
+		Rules: []func(*core.Ctx){RSurface, RByteUnit, RUnsetPair, RNZero, RPrevInit, RDialectSib, RUnitCmp, RLazyTable, rDirFoldOnly, RMapState, rCountNOnly, RNodeOpts},
 		Explanation: "Structural necessary conditions of the adapter agreeing with the standard library: R-SURFACE (method-set and signature agreement with *regexp.Regexp, on go/types), R-BYTEUNIT (no rune position reaches an []int the adapter fills or a bound of a byte slice: SSA taint from Capture.RuneIndex / RuneLength, sanitised only by indexing an offset table), R-UNSETPAIR (groups without captures give -1 pairs / nil / \"\"), R-NZERO (n == 0 gives nil), R-PREVINIT (the first empty match is not dropped), R-DIALECTSIB (\\w \\d \\s \\b and their forms inside a class pick their ASCII dialect under the same option predicates), R-UNITCMP, R-LAZYTABLE, R-DIRFOLD (shared with C07/C08). " +
 			"That the adapter returns what the standard library returns for a pattern and input is an equality between two engines and is NOT decided.",
 	})
@@ -51,7 +51,7 @@ func init() {
 	})
 	register(&Prop{
 		ID:    "C12",
-		Rules: []func(*core.Ctx){RStale, RPool, RQuickSame, RSelfRun, RLoopMatch},
+		Rules: []func(*core.Ctx){RStale, RPool, RQuickSame, RSelfRun, RLoopMatch, RCachePair},
 		Explanation: "R-STALE: interprocedural must-write / may-read-before-write analysis on SSA over every field of the pooled Runner and of the Match it owns, starting at (*Runner).scan with all non-persistent fields stale; R-RESTORE, R-DETACH, R-BUFLEN, R-CACHEKEY: pairing / ordering checks on the pool return path, the detach of handed-out matches, pooled buffer re-slicing and the replacement cache key. " +
 			"Necessary for history independence (a field read before written leaks the previous call). Equality with a fresh Regexp as such is NOT decided.",
 	})
@@ -63,7 +63,7 @@ func init() {
 	})
 	register(&Prop{
 		ID:    "C07",
-		Rules: []func(*core.Ctx){RSeq, RFwdOnly, RSentinelArg, RUnitCmp, RPrevInit},
+		Rules: []func(*core.Ctx){RSeq, RFwdOnly, RSentinelArg, RUnitCmp, RPrevInit, RMapState},
 		Explanation: "Structural skeleton of match iteration on SSA: R-NEXT (every continued search passes X.textpos and X.RuneLength of the same match X), R-EMPTYBUMP (after an empty previous match every path bumps before searching; stop tests use the direction-selected stoppos), R-ADVANCE (loop variant of scan's attempt loop), R-TEXTPOS (both arms of tidyMatch record the resume position), R-DIRFOLD (folds over the match sequence are direction-aware), R-COUNTN (the find-all limit is charged only for reported matches). " +
 			"Necessary for ordered, terminating iteration. Strict monotonicity of the returned matches (which depends on findFirstChar/execute never moving the attempt position backwards) and the length+1 bound are NOT decided.",
 	})
@@ -105,37 +105,37 @@ func init() {
 	})
 	register(&Prop{
 		ID:    "C17",
-		Rules: []func(*core.Ctx){RSlot, RCapsKey, RCapNode, RSkipTaken, ROptStack, RIgnParen, RDigitAcc, RLazyBuf},
+		Rules: []func(*core.Ctx){RSlot, RCapsKey, RCapNode, RSkipTaken, ROptStack, RIgnParen, RDigitAcc, RLazyBuf, RLazyFull, RNameOnce, RParserFresh},
 		Explanation: "R-SLOT (group numbers reach slot indexes only through the number->slot maps, in the writer, the replacement data, GroupByNumber and initMatch; internal GroupByNumber callers pass numbers, not dense indexes), R-CAPNODE (every capture node created by the main parse accounts for its slot like the pre-scan does), R-SKIPTAKEN (a named group gets the next number that is not taken). " +
 			"That the pre-scan and the main parse assign the same numbers in every case, name ordering and duplicate-name rules are NOT decided.",
 	})
 	register(&Prop{
 		ID:    "C18",
-		Rules: []func(*core.Ctx){RTopOnly, ROptStack, ROptSign, ROptCache},
+		Rules: []func(*core.Ctx){RTopOnly, ROptStack, ROptSign, ROptCache, RNodeOpts, RParserFresh, ROptMemo},
 		Explanation: "R-TOPONLY (compile-time option words are only handed on whole or masked with options that cannot be set inline, so every inline-settable option is read from where inline groups put it), R-OPTSTACK (push/pop discipline of the option stack in both passes: pop kinds per arm, and per-path balance against opened groups). " +
 			"That the three spellings produce the same tree is NOT decided.",
 	})
 	register(&Prop{
 		ID:    "C19",
-		Rules: []func(*core.Ctx){RCodec, REscAll, REscLetters, RUnits, RRuneByte, RErrFallback, RKeyInj, RSelfShift},
+		Rules: []func(*core.Ctx){RCodec, REscAll, REscLetters, RUnits, RRuneByte, RErrFallback, RKeyInj, RSelfShift, RTrunc},
 		Explanation: "R-CODEC: the writer's decision tree (escape) and the reader's switch (scanCharEscape) are evaluated from the source and compared: named escapes pairwise, hex digit counts from the value interval and padding on each path against the reader's fixed widths, bare-backslash escapes against the reader's default arm, and `meta` against the parser's character-class table. R-ESCALL: Escape cannot bypass escape(). R-UNITS: byte offsets never become rune positions (taint from strings.Index* / range-string keys to []rune indexes and the parser position). " +
 			"That ^Escape(s)$ matches exactly s needs the parser and engine and is NOT decided.",
 	})
 	register(&Prop{
 		ID:    "C20",
-		Rules: []func(*core.Ctx){RSub, RSubFirst, RCaseRecur, RAsciiFold, RCiRef, RNegChars, RAddMono, RFoldSib, RLetterRange, ROr20, RCatIdent, RCopyAll, RCiFlag, RCaseBit},
+		Rules: []func(*core.Ctx){RSub, RSubFirst, RCaseRecur, RAsciiFold, RCiRef, RNegChars, RAddMono, RFoldSib, RLetterRange, ROr20, RCatIdent, RCopyAll, RCiFlag, RCaseBit, RNodeOpts},
 		Explanation: "R-SUB on the case transformers (case equivalences reach a class's subtraction), R-CASERECUR (a subtraction is parsed with the same case flag), R-ASCIIFOLD (ASCII-only ignore-case search helpers only on ASCII-tested needles), R-CIREF (reduce clears IgnoreCase on everything but backreferences; refmatch folds both sides alike), R-NEGCHARS. " +
 			"The invariance of match outcomes under case changes is NOT decided.",
 	})
 	register(&Prop{
 		ID:    "C08",
-		Rules: []func(*core.Ctx){RCapNorm, RLastCap, RNonNegLen, RRuneWidth, RLazyTable, RStepDecode, RStrText, RUnits, RUnitCmp, RRuneLenNeg},
+		Rules: []func(*core.Ctx){RCapNorm, RLastCap, RNonNegLen, RRuneWidth, RLazyTable, RStepDecode, RStrText, RUnits, RUnitCmp, RRuneLenNeg, RCompactSib, RLazyFull, RMapState},
 		Explanation: "R-CAPNORM (capture lengths are computed after the end<start swap), R-LASTCAP (a group's embedded capture is its last one; group 0 has exactly one capture from matches[0]: affine evaluation of the index expressions), R-RUNEWIDTH (every byte mapper that sizes runes with RuneLen re-decodes under RuneError), R-STRTEXT (string entry points build match text from the original string), R-UNITS (byte offsets never become rune positions). " +
 			"0 <= index <= index+length <= len for every capture (which depends on the interpreter's positions), balancing compaction and value-for-value agreement of the mappers are NOT decided.",
 	})
 	register(&Prop{
 		ID:    "C09",
-		Rules: []func(*core.Ctx){RRepConst, RRepCases, RRepID, RFoldExit, RCommitPos, RCompact, RLoopMatch, rDirFoldOnly, RSlot, RCapsKey},
+		Rules: []func(*core.Ctx){RRepConst, RRepCases, RRepID, RFoldExit, RCommitPos, RCompact, RLoopMatch, rDirFoldOnly, RSlot, RCapsKey, RCachePair, RCompactSib},
 		Explanation: "R-REPCONST (encoder and decoder of replacement rules are the same affine map over equal constants), R-REPCASES (every special token has an arm in both expansion functions; the right-to-left expansion collects pieces last-to-first), R-COMPACT (balancing compaction precedes every expansion of the reused match; count discipline of the replace loops), R-DIRFOLD (Split and the replace drivers are direction-aware), R-SLOT (group numbers reach slots through the maps, including inside Split). " +
 			"That the pieces are concatenated with the right text in between, $-grammar ambiguities and identity of $& are NOT decided.",
 	})
@@ -150,3 +150,5 @@ func init() {
 func rStaleOnly(c *core.Ctx) { RStale(c) }
 
 func rDirFoldOnly(c *core.Ctx) { rDirFold(c) }
+
+func rCountNOnly(c *core.Ctx) { rCountN(c) }
